@@ -162,7 +162,8 @@ def generate(rng, tier):
     seps = [rng.choice(["\n", "\n", " ", "\n\n", "  \n"]) for _ in range(len(forms) + 1)]
     seps[0] = rng.choice(["", "", "\n", " "])
     return {"forms": forms, "seps": seps, "repl_sample": rng.randrange(1 << 30),
-            "eol": rng.choice(["\n", "\n", "\n", "\r\n", "\r\n"])}
+            "eol": rng.choice(["\n", "\n", "\n", "\r\n", "\r\n"]),
+            "ws": rng.choice([None, None, None, "\t", "\x0c", "\x0b", "\r"]), "ws_seed": rng.randrange(1 << 30)}
 
 
 # ------------------------------------------------------------------ renderer with per-offset classification
@@ -171,6 +172,7 @@ def generate(rng, tier):
 class Render:
     def __init__(self):
         self.out = []
+        self.sepmask = []   # True for structural whitespace between items / top-level forms
         self.cls = ["top"]
         self.ctx = ["top"]
         self.stack = []  # ["seq", label] | ["prefix", label, need]
@@ -188,9 +190,10 @@ class Render:
                 return "open"
         return "top"
 
-    def emit(self, s, mode, label=None):
+    def emit(self, s, mode, label=None, sep=False):
         for ch in s:
             self.out.append(ch)
+            self.sepmask.append(sep)
             self.cls.append(self._classify(mode))
             self.ctx.append(label or (self.stack[-1][1] if self.stack else "top"))
 
@@ -217,7 +220,7 @@ class Render:
             self.emit(opener, "struct")
             for i, it in enumerate(items):
                 if i:
-                    self.emit(seps[i] or " ", "struct")
+                    self.emit(seps[i] or " ", "struct", sep=True)
                 self.form(it)
             if trailing_comment:
                 self.emit(" ; c\n", "struct")
@@ -324,7 +327,7 @@ def first_char(t):
 def render(desc):
     r = Render()
     forms, seps = desc["forms"], desc["seps"]
-    r.emit(seps[0], "struct")
+    r.emit(seps[0], "struct", sep=True)
     for i, f in enumerate(forms):
         r.form(f)
         sep = seps[i + 1]
@@ -332,9 +335,15 @@ def render(desc):
             sep = "\n"
         elif i + 1 < len(forms) and not sep:
             sep = " "
-        r.emit(sep, "struct")
+        r.emit(sep, "struct", sep=True)
     assert not r.stack, r.stack
     out, cls, ctx = r.out, r.cls, r.ctx
+    if desc.get("ws"):
+        # swarm over the other ASCII whitespace characters (tab, form feed, vertical tab, lone CR): they separate
+        # forms like a space does and, unlike "\n", are no line ends for the reader
+        import random as _random
+        wr = _random.Random(desc.get("ws_seed", 0))
+        out = [desc["ws"] if (ch == " " and r.sepmask[p] and wr.random() < 0.6) else ch for p, ch in enumerate(out)]
     eol = desc.get("eol", "\n")
     if eol != "\n":
         # swarm over line endings: every "\n" becomes eol; a cut between "\r" and "\n" is judged like the
@@ -524,5 +533,7 @@ def shrink(desc):
             yield dict(desc, forms=forms[:i] + [s] + forms[i + 1:])
     if desc.get("eol", "\n") != "\n":
         yield dict(desc, eol="\n")
+    if desc.get("ws"):
+        yield dict(desc, ws=None)
     if any(s != "\n" for s in seps[1:]) or seps[0]:
         yield dict(desc, seps=[""] + ["\n"] * (len(seps) - 1))
